@@ -33,7 +33,7 @@ class Spec:
     setters: assignment target text -> coq function  X -> env -> prog unit   (for attribute targets)
     """
     def __init__(self, *, locals=None, pure=None, prog=None, cond=None, skip=(), stmts=None,
-                 handlers=None, setters=None, iters=None, env='env', fuel='fuel'):
+                 handlers=None, setters=None, iters=None, calls=None, env='env', fuel='fuel', ret_none='VNone'):
         self.locals = locals or {}
         self.pure = pure or {}
         self.prog = prog or {}
@@ -43,6 +43,10 @@ class Spec:
         self.handlers = handlers or {}
         self.setters = setters or {}
         self.iters = iters or {}
+        # calls: function text -> dict(fn=<coq function>, params=[(name, default coq text | None)], kind='prog'|'pure')
+        self.calls = calls or {}
+        self.pure_types = {}
+        self.ret_none = ret_none
         self.env = env
         self.fuel = fuel
 
@@ -59,10 +63,33 @@ class Tr:
     def txt(self, e) -> str:
         return ast.unparse(e)
 
+    def call_args(self, e: ast.Call, c: dict) -> str:
+        names = [n for n, _ in c['params']]
+        given = {}
+        if any(isinstance(a, ast.Starred) for a in e.args) or any(k.arg is None for k in e.keywords):
+            raise Unsupported(f'{self.where}: star arguments in call {self.txt(e)!r}')
+        if len(e.args) > len(names):
+            raise Unsupported(f'{self.where}: too many arguments in {self.txt(e)!r}')
+        for n, a in zip(names, e.args):
+            given[n] = self.pure(a)
+        for k in e.keywords:
+            if k.arg not in names or k.arg in given:
+                raise Unsupported(f'{self.where}: keyword {k.arg!r} in {self.txt(e)!r}')
+            given[k.arg] = self.pure(k.value)
+        out = []
+        for n, d in c['params']:
+            if n in given: out.append(given[n])
+            elif d is not None: out.append(f'({d})')
+            else: raise Unsupported(f'{self.where}: missing argument {n!r} in {self.txt(e)!r}')
+        return ' '.join(out)
+
     def pure(self, e) -> str:
         t = self.txt(e)
         if t in self.s.pure:
             return f'({self.s.pure[t]})'
+        if isinstance(e, ast.Call) and self.txt(e.func) in self.s.calls and self.s.calls[self.txt(e.func)].get('kind') == 'pure':
+            c = self.s.calls[self.txt(e.func)]
+            return f'({c["fn"]} {self.call_args(e, c)})'
         if isinstance(e, ast.Name) and e.id in self.s.locals:
             return f'(l_{e.id} env)'
         if isinstance(e, ast.Constant):
@@ -77,6 +104,9 @@ class Tr:
         t = self.txt(e)
         if t in self.s.prog:
             return f'({self.s.prog[t]})'
+        if isinstance(e, ast.Call) and self.txt(e.func) in self.s.calls and self.s.calls[self.txt(e.func)].get('kind', 'prog') == 'prog':
+            c = self.s.calls[self.txt(e.func)]
+            return f'({c["fn"]} {self.call_args(e, c)})'
         raise Unsupported(f'{self.where}: effectful expression not in table: {t!r}')
 
     def any_prog(self, e) -> str:
@@ -102,6 +132,19 @@ class Tr:
             return out
         if isinstance(e, ast.Name) and self.s.locals.get(e.id) == 'bool':
             return f'(Ret (l_{e.id} env))'
+        if isinstance(e, ast.Name) and self.s.locals.get(e.id) == 'value':
+            return f'(Ret (truthy (l_{e.id} env)))'
+        if (isinstance(e, ast.Compare) and len(e.ops) == 1 and isinstance(e.comparators[0], ast.Constant)
+                and e.comparators[0].value is None and isinstance(e.ops[0], (ast.Is, ast.IsNot))):
+            inner = self.pure(e.left)
+            lt = self.s.locals.get(e.left.id) if isinstance(e.left, ast.Name) else self.s.pure_types.get(self.txt(e.left))
+            if lt and lt.startswith('option'):
+                test = f'opt_is_none {inner}'
+            elif lt == 'value':
+                test = f'is_none {inner}'
+            else:
+                raise Unsupported(f'{self.where}: `is None` on untyped expression {t!r}')
+            return f'(Ret ({test}))' if isinstance(e.ops[0], ast.Is) else f'(Ret (negb ({test})))'
         raise Unsupported(f'{self.where}: condition not in table: {t!r}')
 
     # ---------------- statements ----------------
@@ -157,7 +200,7 @@ class Tr:
             return f's_do (fun env => {self.progx(v)})'
         if isinstance(s, ast.Return):
             if s.value is None:
-                return 's_return (fun env => Ret VNone)'
+                return f's_return (fun env => Ret {self.s.ret_none})'
             return f's_return (fun env => {self.any_prog(s.value)})'
         if isinstance(s, ast.Raise):
             if s.exc is None and s.cause is None:
@@ -234,3 +277,19 @@ def params_of(fn) -> list[str]:
 
 def decorators_of(fn) -> list[str]:
     return [ast.unparse(d) for d in fn.decorator_list]
+
+
+def emit_function(mod: str, comment: str, fields: dict[str, tuple[str, str]], rtype: str, rdefault: str,
+                  body: str, ctx_params: str = '', args: list[str] = ()) -> str:
+    """One translated Python function as a Coq Module: its locals record, its body as a statement, and `run`.
+    ctx_params: binder text of parameters that are not locals (e.g. '(fuel : nat) (self : contracts)');
+    args: the locals that are parameters of the Python function (initialised from run's arguments)."""
+    ctx_names = ' '.join(re.findall(r'\((\w+)\s*:', ctx_params))
+    arg_binders = ' '.join(f'({a} : {fields[a][0]})' for a in args)
+    init = 'env0'
+    for a in args:
+        init = f'(set_{a} {a} {init})'
+    return (f'(* {sanitize(comment)} *)\nModule {mod}.\n' + env_record('env', fields) +
+            f'Definition body {ctx_params} : stmt env {rtype} :=\n {body}.\n'
+            f'Definition run {ctx_params} {arg_binders} : prog {rtype} := run_body (body {ctx_names}) {init} {rdefault}.\n'
+            f'End {mod}.\n\n')
